@@ -20,6 +20,8 @@ CLAUSE = CLAUSE + (" vbi_export_mem: when the write layer moved to a heap buffer
 CLAUSE = CLAUSE + (" In ppm_export's caller-buffer branch the advance capacity check (sized for the pixel rows only) is not "
                    "followed by a formatted write before the unchecked row stores (the header is written first); the iconv "
                    "character set name of each text export format is the one its menu label names.")
+CLAUSE = CLAUSE + (" A block handed straight to the target (e->_write with anything but the export buffer) is dominated by "
+                   "fast_flush(); in the glyph renderers rowstride (bytes) occurs inside a pixel index only divided by canvas_type.")
 NOT_DECIDED = ("pixel rectangle arithmetic under arbitrary rowstride, character-for-character fidelity of the text output, "
                "byte identity of the targets as values.")
 
@@ -84,6 +86,8 @@ def run(ctx, run):
     _pixel_size_terms(ctx, run)
     _mem_room_exact(ctx, run)
     _format_names(ctx, run)
+    _flush_before_direct_write(ctx, run)
+    _stride_units(ctx, run)
 
 
 def _grow_before_store(ctx, run):
@@ -499,3 +503,88 @@ def _format_names(ctx, run):
                       "outside the common subset come out wrong" % (k, a[:40], b), "src/exp-txt.c", witness={"entries": bad[:4]})
     else:
         run.holds("RF-TAB", key, "all %d iconv names occur in the label of their menu entry" % len(names), "src/exp-txt.c")
+
+
+def _flush_before_direct_write(ctx, run):
+    """RF-DEP: output bytes reach the target in the order the module produced them.  The write
+    layer buffers small writes; a block that bypasses the buffer (e->_write with anything but the
+    export buffer itself) may go out only after the buffered bytes did, i.e. after a dominating
+    fast_flush() - otherwise a large block overtakes the header written before it (stdio, fd and
+    file targets only: memory targets would still look right)."""
+    P = ctx.prog
+    n = 0
+    for f in P.funcs:
+        if f.file != EXPORT:
+            continue
+        pos = flow.elem_pos(f)
+        flushes = [(b, i) for b, i in flow.all_events(f) if f.exprs[i]["k"] == "call" and f.exprs[i].get("callee") == "fast_flush"]
+        for bid, i in flow.all_events(f):
+            e = f.exprs[i]
+            if e["k"] != "call" or e.get("callee") or len(e.get("c", [])) < 3:
+                continue
+            fn = f.exprs[ex.skip(f, e["fn"])] if isinstance(e.get("fn"), int) else None
+            txt = ex.pretty(f, i)
+            if "_write" not in txt.split("(")[0] and not (fn is not None and fn.get("member") == "_write"):
+                continue
+            data = ex.pretty(f, e["c"][1]) if len(e["c"]) > 1 else ""
+            if "buffer.data" in data:
+                continue          # the flush itself: writes the buffered bytes
+            n += 1
+            run.touch(f)
+            ok = any((b == bid and pos[j][1] < pos[i][1]) or (b != bid and flow.dominates(f, b, bid)) for b, j in flushes)
+            key = "RF-DEP:%s:flush-before-direct-write" % f.name
+            if ok:
+                run.holds("RF-DEP", key, "`%s` is dominated by fast_flush(): buffered bytes go out first" % txt[:50], ex.loc(f, i))
+            else:
+                run.violation("RF-DEP", key, "`%s` hands a block straight to the target while earlier, smaller writes may still sit "
+                              "in the export buffer (no fast_flush() dominates it): on stream and file targets the block lands "
+                              "ahead of them and the file differs from the memory export" % txt[:60], ex.loc(f, i))
+    run.floor("unbuffered target writes in export.c", n, 1)
+
+
+def _stride_units(ctx, run):
+    """RF-UNIT: in the glyph renderers `rowstride` is a *byte* distance while the index of a
+    peek/poke is in pixels of canvas_type bytes: inside a subscript rowstride appears only as
+    rowstride / canvas_type.  (Byte-pointer arithmetic `canvas += rowstride` is the other,
+    correct, use.)  A bare rowstride in an index puts the doubled line canvas_type times too far
+    down - outside the glyph cell, for a tight canvas outside the buffer."""
+    P = ctx.prog
+    n = 0
+    for name in ("draw_char", "draw_drcs", "draw_blank"):
+        f = P.need(name, "src/exp-gfx.c")
+        run.touch(f)
+        parent = {}
+        for i, e in enumerate(f.exprs):
+            for c in e.get("c", []) or []:
+                if isinstance(c, int) and c >= 0:
+                    parent[c] = i
+        bad = []
+        for i, e in enumerate(f.exprs):
+            if e["k"] != "idx":
+                continue
+            for j in ex.walk(f, e["c"][1]):
+                x = f.exprs[j]
+                if x["k"] == "ref" and x.get("name") == "rowstride":
+                    n += 1
+                    k = j
+                    while k in parent and f.exprs[parent[k]]["k"] == "cast":
+                        k = parent[k]
+                    p = f.exprs[parent[k]] if k in parent else None
+                    good = False
+                    if p is not None and p["k"] == "bin" and p["op"] == "/" and p["c"][0] == k:
+                        d = f.exprs[ex.skip(f, p["c"][1])]
+                        while d["k"] == "cast":
+                            d = f.exprs[ex.skip(f, d["c"][0])]
+                        good = d["k"] == "ref" and d.get("name") == "canvas_type"
+                    if not good:
+                        bad.append(i)
+        key = "RF-UNIT:%s:rowstride-in-index" % name
+        if bad:
+            i = bad[0]
+            run.violation("RF-UNIT", key, "%s(): the pixel index `%s` uses the byte distance rowstride without dividing by "
+                          "canvas_type: for 2- and 4-byte pixels the line below is addressed %s lines further down, outside the "
+                          "rectangle being drawn" % (name, ex.pretty(f, f.exprs[i]["c"][1])[:60], "canvas_type"), ex.loc(f, i),
+                          witness={"sites": len(bad)})
+        else:
+            run.holds("RF-UNIT", key, "every rowstride inside a peek/poke index is divided by canvas_type", "%s:%d" % (f.file, f.line))
+    run.floor("rowstride uses inside pixel indices", n, 20)
